@@ -1209,10 +1209,12 @@ impl SvgElement {
                 Some(el) => el,
                 None => return Ok(()),
             };
-            if let (Some(bbox), Some(skip_rp_sep)) = (
-                ctx.get_element_bbox(ref_el)?,
-                remain.strip_prefix(RELPOS_SEP),
-            ) {
+            if let Some(skip_rp_sep) = remain.strip_prefix(RELPOS_SEP) {
+                // the referenced element may be known but not yet resolved (or never
+                // have a bounding box); don't pass the relative position through
+                let bbox = ctx
+                    .get_element_bbox(ref_el)?
+                    .ok_or_else(|| SvgdxError::MissingBoundingBox(ref_el.to_string()))?;
                 let parts = skip_rp_sep.find(|c: char| c.is_whitespace());
                 let (reldir, remain) = if let Some(split_idx) = parts {
                     let (a, b) = skip_rp_sep.split_at(split_idx);
